@@ -28,6 +28,15 @@ open DepsDev DepsDev.Gen DepsDev.Model.Resolve.Attr
 
 def cont (x : Nat) : Bool := 0x80 ≤ x && x ≤ 0xBF
 
+/-- the `acceptRanges` test of a 3-byte sequence with lead byte `c` (utf8.go). -/
+def accept3 (c b1 b2 : Nat) : Bool :=
+  decide ((if c = 0xE0 then 0xA0 else 0x80) ≤ b1) && decide (b1 ≤ (if c = 0xED then 0x9F else 0xBF)) && cont b2
+
+/-- the `acceptRanges` test of a 4-byte sequence with lead byte `c`. -/
+def accept4 (c b1 b2 b3 : Nat) : Bool :=
+  decide ((if c = 0xF0 then 0x90 else 0x80) ≤ b1) && decide (b1 ≤ (if c = 0xF4 then 0x8F else 0xBF)) &&
+  cont b2 && cont b3
+
 /-- `utf8.DecodeRuneInString`: (rune, width); invalid or truncated input gives
 `(0xFFFD, 1)`, the empty string `(0xFFFD, 0)`. -/
 def decodeRune : Bytes → Nat × Nat
@@ -44,18 +53,14 @@ def decodeRune : Bytes → Nat × Nat
     else if c < 0xF0 then
       match rest with
       | b1 :: b2 :: _ =>
-        let lo := if c = 0xE0 then 0xA0 else 0x80
-        let hi := if c = 0xED then 0x9F else 0xBF
-        if lo ≤ b1.toNat && b1.toNat ≤ hi && cont b2.toNat then
+        if accept3 c b1.toNat b2.toNat then
           ((c - 0xE0) * 4096 + (b1.toNat - 0x80) * 64 + (b2.toNat - 0x80), 3)
         else (0xFFFD, 1)
       | _ => (0xFFFD, 1)
     else if c < 0xF5 then
       match rest with
       | b1 :: b2 :: b3 :: _ =>
-        let lo := if c = 0xF0 then 0x90 else 0x80
-        let hi := if c = 0xF4 then 0x8F else 0xBF
-        if lo ≤ b1.toNat && b1.toNat ≤ hi && cont b2.toNat && cont b3.toNat then
+        if accept4 c b1.toNat b2.toNat b3.toNat then
           ((c - 0xF0) * 262144 + (b1.toNat - 0x80) * 4096 + (b2.toNat - 0x80) * 64 + (b3.toNat - 0x80), 4)
         else (0xFFFD, 1)
       | _ => (0xFFFD, 1)
